@@ -164,6 +164,37 @@ def decrypt_site(rc1: int, o1: str, rc2: int, o2: str, os1: bool, os2: bool):
     return ok, res is not None, "res=%r exc=%r" % (res, exc)
 
 
+def two_runs(site: int, o1: str, second_writes: bool, o2: str, rc2: int):
+    """Two tool runs on the same backend object: a successful one, then one that may produce no
+    output at all.  The second result is the second run's own output or an error - never what the
+    first run left behind."""
+    from veriflib.boot import concrete
+    site, second_writes = concrete(site), concrete(second_writes)
+    procmodel.Script.reset([{"rc": 0, "out": "", "err": "", "output": o1},
+                            {"rc": rc2, "out": "", "err": "", "output": o2 if second_writes else None}])
+    def run():
+        if site == 0:
+            return BACKEND.sign_statement("<Statement>unsigned</Statement>", "urn:x:Assertion", "key.pem", "id-1", "ID")
+        if site == 1:
+            return BACKEND.encrypt_assertion("<Response><Assertion>secret</Assertion></Response>", "cert.pem", "<tmpl/>", "des-192", None)
+        return BACKEND.decrypt("<Response><EncryptedAssertion>cipher</EncryptedAssertion></Response>", "key.pem", "ID")
+    r1 = run()
+    r2 = None
+    exc = None
+    try:
+        r2 = run()
+    except Exception as e:
+        exc = e
+    produced2 = second_writes & (rc2 >= 0) & (len(o2) > 0)
+    if r2 is not None and site in (0, 1):
+        ok = produced2 & (r2 == o2)
+    elif r2 is not None:
+        ok = (r2 == (o2 if (second_writes & (rc2 >= 0)) else ""))      # decrypt: empty text = nothing decrypted
+    else:
+        ok = exc is not None
+    return ok & (r1 == o1), True, "r1=%r r2=%r exc=%r" % (r1, r2, exc)
+
+
 # ---- metadata verification site -----------------------------------------------------------------
 from saml2_tophat import md, BINDING_HTTP_REDIRECT                      # noqa: E402
 from saml2_tophat.mdstore import MetaDataExtern                          # noqa: E402
@@ -182,6 +213,42 @@ class _R:
 class _H:
     def send(self, url, **kw):
         return _R()
+
+
+_ED2 = md.EntityDescriptor(entity_id="urn:verif:rogue", id="id-md1", idpsso_descriptor=[md.IDPSSODescriptor(
+    protocol_support_enumeration=samlp.NAMESPACE,
+    single_sign_on_service=[md.SingleSignOnService(binding=BINDING_HTTP_REDIRECT, location="http://ATTACKER.example.org/sso")])],
+    signature=sigver.pre_signature_part("id-md1"))
+_MDTEXT2 = "%s" % _ED2
+
+
+def metadata_refresh(f2: int):
+    """The source verified fine once; a later refresh delivers different content for the same
+    entity and the verification run fails: the unverified endpoints are never served."""
+    procmodel.Script.reset([FAULTS[0], FAULTS[f2], FAULTS[f2]])
+    _R.content = _MDTEXT
+    m = MetaDataExtern(None, "http://md.example.org/x.xml", SEC, "cert.pem", _H(), node_name="urn:oasis:names:tc:SAML:2.0:metadata:EntityDescriptor")
+    try:
+        m.load()
+    except Exception:
+        pass
+    first_ok = "urn:verif:rogue" in m.keys()
+    _R.content = _MDTEXT2
+    try:
+        m.load()
+    except Exception:
+        pass
+    finally:
+        _R.content = _MDTEXT
+    try:
+        srv = m.service("urn:verif:rogue", "idpsso_descriptor", "single_sign_on_service", BINDING_HTTP_REDIRECT) or []
+    except Exception:
+        srv = []
+    locs = [x["location"] for x in srv]
+    ok = first_ok
+    if not FAULT_OK[f2]:
+        ok = ok and ("http://ATTACKER.example.org/sso" not in locs)
+    return ok, True, "served=%r" % (locs,)
 
 
 def metadata_site(f1: int, again: bool):
@@ -228,6 +295,11 @@ CONDITIONS = [
                     "sigver.CryptoBackendXmlSec1.validate_signature/_run_xmlsec", "sigver.parse_xmlsec_output", "mdstore.MetadataStore.certs"],
          bounds="13-entry fault catalogue (error exit, signal after OK, killed, empty, truncated, OK inside text, FAIL before OK, not startable, garbage, "
                 "OK on stdout only) injected at the first, second and third invocation within one verification"),
+    Cond(name="two_runs", fn="two_runs", params=[("site", "int"), ("o1", "str"), ("second_writes", "bool"), ("o2", "str"), ("rc2", "int")],
+         pre=["0 <= site <= 2", "1 <= len(o1) <= 2", "len(o2) <= 2", "-64 <= rc2 <= 255"],
+         partitions={"quick": [{"site": k} for k in range(3)]}, timeout={"quick": 400, "thorough": 900},
+         functions=["sigver.CryptoBackendXmlSec1._run_xmlsec (two consecutive runs on one backend)", "sign_statement / encrypt_assertion / decrypt"],
+         bounds="a successful run with output o1, then a run that writes nothing / writes o2 (<= 2 chars) with any return code, at the sign, encrypt and decrypt sites"),
     Cond(name="sign_site", fn="sign_site",
          params=[("rc", "int"), ("out", "str"), ("err", "str"), ("output", "str"), ("oserror", "bool")],
          pre=["-64 <= rc <= 255", "len(out) <= 2", "len(err) <= 2", "len(output) <= 3"],
@@ -248,6 +320,11 @@ CONDITIONS = [
          bounds="two configured key files; per invocation return code in [-64,255], output text <= 3 chars (empty = nothing decrypted), not startable"),
 ]
 
+CONDITIONS.append(
+    Cond(name="metadata_refresh", fn="metadata_refresh", params=[("f2", "int")], pre=["0 <= f2 < %d" % _NF],
+         partitions={"quick": [{}]}, timeout={"quick": 400, "thorough": 900}, path_timeout=60,
+         functions=["mdstore.MetaDataExtern.load (twice)", "mdstore.InMemoryMetaData.parse_and_check_signature/do_entity_descriptor"],
+         bounds="a verified first load, then a refresh with other endpoints for the same entity whose verification run fails in each of the 13 catalogue ways"))
 CONDITIONS.append(
     Cond(name="metadata_site", fn="metadata_site", params=[("f1", "int"), ("again", "bool")], pre=["0 <= f1 < %d" % _NF],
          partitions={"quick": [{}]}, timeout={"quick": 400, "thorough": 900}, path_timeout=60,
